@@ -85,9 +85,10 @@ Unspecified(r, cfg) ==
     \/ r.transport = "repeated"                               \* a repeated query parameter: which value counts is not documented
 
 \* ---------------------------------------------------------------- cells
-CONSTANTS Attach, Shapes, Methods, Transports, Sids, Eios, Origins, Upgrades, Hooks, Mws, Enabled, Eio3s, Mode, Emit
+CONSTANTS Attach, Shapes, RouteMethods, Methods, Transports, Sids, Eios, Origins, Upgrades, Hooks, Mws, Enabled, Eio3s, Mode, Emit
 VARIABLE cell
-RouteCells == {[kind |-> "route", attach |-> a, shape |-> sh] : a \in Attach, sh \in Shapes}
+\* routing looks at the cleaned path only: the method (CONNECT included, which net/http does not canonicalise) plays no part
+RouteCells == {[kind |-> "route", attach |-> a, shape |-> sh, method |-> m] : a \in Attach, sh \in Shapes, m \in RouteMethods}
 AdmitCells == {[kind |-> "admit", method |-> m, transport |-> t, sid |-> s, eio |-> e, origin |-> o, upgrade |-> u, hook |-> h, mw |-> w,
                 enabled |-> en, eio3 |-> e3] :
                  m \in Methods, t \in Transports, s \in Sids, e \in Eios, o \in Origins, u \in Upgrades, h \in Hooks, w \in Mws,
